@@ -85,3 +85,11 @@ Theorem C19_exclude_rows_order_irrelevant : forall m rs', Permutation (m_rows m)
   check_exclude (with_rows m rs') = check_exclude m.
 Proof. exact check_exclude_rows_perm. Qed.
 Print Assumptions C19_exclude_rows_order_irrelevant.
+
+(* ... nor does the order in which the assignments of an include entry are visited *)
+Theorem C19_include_assign_order_irrelevant : forall m ce cs',
+  m_include m = Some {| cs_expr := ce; cs_list := cs' |} -> forall cs,
+  Forall2 comb_perm cs cs' ->
+  check_exclude (with_include m (Some {| cs_expr := ce; cs_list := cs |})) = check_exclude m.
+Proof. exact check_exclude_include_perm. Qed.
+Print Assumptions C19_include_assign_order_irrelevant.
